@@ -49,10 +49,9 @@ def c18_runs(tier):
     #     executions per configuration: bound 1 ~200, bound 2 ~2-4 k, bound 3 ~13 k
     if q:
         fget('man', alts(0, 2), KINDS, alts(*PROGS[:5]), 1, budget=60)  # 40 configurations
-        fget('man', 2, 'val', PROGS[0], 2)
         fget('man', 0, 'val', PROGS[1], 2)
         fget('man', alts(0, 2), alts('val', 'thr'), alts(*DROPS), 1, drop=1)
-        fget('man', 0, 'val', DROPS[0], 2, drop=1)
+        fget('man', 2, 'val', DROPS[0], 2, drop=1)
     else:
         fget('man', 2, 'val', PROGS[0], 3, budget=120)
         fget('man', 0, 'val', PROGS[1], 3, budget=120)
@@ -93,14 +92,17 @@ def c18_runs(tier):
         fget('nt', 1, alts('ref', 'void', 'thr'), PROGS[1], 2, budget=90)
         fget('nt', alts(0, 1), alts('val', 'thr'), alts('r.-.d', 'z.g.e'), 2, drop=1, budget=90)
         fget('imm', ALLPOL, KINDS, PROGS[1], 2, budget=60)
-    # (3) sanitizer legs
-    fget('man', 2, 'val', PROGS[0], 1 if q else 2, mode='tsan', budget=90)
-    fget('pool', 1, 'thr', PROGS[1], 1, n=1, mode='tsan', opts=FSC, budget=90)
-    fget('man', 0, 'val', PROGS[0], 1 if q else 2, mode='asan', budget=90)
-    fget('nt', 1, 'thr', 'r.-.d', 1, mode='asan', drop=1, budget=90)
+    # TaskSet::wait() returned => the future is ready (nobody called get() before)
+    fget(alts('ts', 'cts'), alts(1, 2), 'val', 'r.-.-', 2, n=1, opts=FSC, budget=90)
+    # (3) sanitizer legs. Under ASan every execution that used the small-buffer allocator ends with a full leak scan
+    #     (the allocator's chunks are still live when the body returns), ~1-2 s each on a loaded machine: bound 0 only.
+    fget('man', 2, 'val', PROGS[0], 1, mode='tsan', opts=FSC, budget=90)
+    fget('man', 0, 'val', DROPS[0], 0, mode='asan', drop=1, budget=90)
     if not q:
-        fget('man', 0, 'thr', PROGS[1], 2, mode='tsan', budget=120)
-        fget('cts', 1, 'val', PROGS[0], 1, n=1, mode='asan', opts=FSC, budget=90)
+        fget('man', 0, 'thr', PROGS[1], 1, mode='tsan', budget=200)
+        fget('pool', 1, 'thr', PROGS[1], 1, n=1, mode='tsan', opts=FSC, budget=200)
+        fget('nt', 1, 'thr', 'r.-.d', 0, mode='asan', drop=1, budget=120)
+        fget('cts', 1, 'val', PROGS[0], 0, n=1, mode='asan', opts=FSC, budget=120)
     return R.runs
 
 
@@ -141,13 +143,12 @@ def c19_runs(tier):
     fthen('man', 'imm', 1, 1, 'b', 2, budget=60)
     fthen('man', 'imm', 1, 1, 'g', 1 if q else 2, akind=alts('val', 'thr'), budget=60)
     fthen('man', 'imm', 1, 1, BG, 1 if q else 2, chain=1, budget=90)
-    fthen('man', 'imm', 2, 1, 'b', 1 if q else 2, budget=90)
+    fthen('man', 'imm', 2, 1, 'b', 1 if q else 2, opts=FSC if q else None, budget=90)
     fthen('man', 'nt', 1, 0, 'b', 2 if q else 3, pol=alts(0, 1, 2, 3), budget=90)
-    fthen('man', 'nt', 1, 1, 'g', 1 if q else 2, budget=90)
+    fthen('man', 'nt', 1, 1, 'g', 1 if q else 2, opts=FSC, budget=90)
     fthen('pre', alts('imm', 'nt'), 2, 0, BG, 1)
     fthen('self', 'imm', 1, 0, 'g', 1, chain=alts(0, 1))
     if not q:
-        fthen('man', 'imm', 1, 1, 'b', 3, budget=300)
         fthen('man', 'imm', 1, 2, 'g', 2, budget=90)
         fthen('man', 'imm', 1, 1, 'z', 2, pol=alts(0, 2), budget=90)
         fthen('man', 'imm', 1, 1, 'b', 2, opts={'casfail': 1}, budget=90)
@@ -180,21 +181,21 @@ def c19_runs(tier):
     fwhen('mr', 'g', 2, ord='0')
     fwhen('rm', 'b', 2, ord='1')
     fwhen('mm', 'b', 1 if q else 2, ord='10', obs=1)
-    fwhen('mm', 'g', 1 if q else 2, ord='01', early=1)
+    fwhen('mm', BG, 1 if q else 2, ord=alts('01', '10'), early=1, budget=120)  # completers start before the combinator is built
     fwhen('mm', 'b', 1 if q else 2, ord='01', split=1)
     fwhen('mmm', BG, 1, ord=alts('201', '012'), budget=90)
     if not q:
         fwhen('i', 'g', 1)
         fwhen('im', 'g', 2, ord='1')
-        fwhen('mm', 'g', 3, ord='10', budget=300)
-        fwhen('mm', 'b', 3, ord='01', budget=300)
+        fwhen('mm', 'g', 3, form='it', ord='10', budget=300)
+        fwhen('mm', 'b', 3, form='tup', ord='01', budget=300)
         fwhen('mrm', 'b', 2, ord='20', budget=120)
         fwhen('rmr', 'g', 2, ord='1')
-        fwhen('mmm', 'g', 2, ord='120', budget=300)
+        fwhen('mmm', 'g', 2, form='it', ord='120', budget=300)
         fwhen('mmm', 'b', 1, ord='120', split=1, obs=1, budget=200)
     # task-set variants: set.wait() returned => result ready
     SETS = alts('ts', 'cts')
-    fwhen('mm', 'w', 2, set=SETS, n=0, ord='10', budget=120)
+    fwhen('mm', 'w', 1 if q else 2, set=SETS, n=0, ord='10', budget=120)
     fwhen('m', 'w', 1, set=SETS, n=1, ord='0', budget=120)
     fwhen('mm', 'g', 1 if q else 2, set=SETS, n=0, ord='01', budget=120)
     if not q:
@@ -204,14 +205,18 @@ def c19_runs(tier):
         fwhen('pp', 'g', 1, set=SETS, n=2, opts=FSC, budget=200)
     fwhen('mm', 'g', 2, op='any', form='it', ord='01', opts={'casfail': 1})
     fwhen('mm', 'b', 2, op='all', form='tup', ord='10', opts={'casfail': 1})
-    # ---- sanitizer legs
-    fthen('man', 'imm', 1, 1, 'b', 1 if q else 2, mode='tsan', budget=90)
-    fwhen('mm', 'b', 1, mode='tsan', ord='10', obs=1, budget=120)
-    fthen('man', 'imm', 2, 1, 'g', 1, mode='asan', budget=90)
-    fwhen('mm', 'w', 1, op='any', form='it', mode='asan', set='cts', n=0, ord='10', budget=90)
+    # ---- sanitizer legs (see C18 for why the ASan legs are bound 0)
+    fthen('man', 'imm', 1, 1, 'b', 1, mode='tsan', opts=FSC, budget=120)
+    fwhen('mm', 'b', 1, op='any', form='it', mode='tsan', ord='10', obs=1, opts=FSC, budget=120)
+    fthen('man', 'imm', 1, 0, 'b', 0, mode='asan', budget=120)
     if not q:
-        fthen('pool', 'ts', 1, 0, 'g', 1, pol=1, n=1, mode='tsan', opts=FSC, budget=120)
-        fwhen('mrm', 'g', 1, op='all', form='tup', mode='asan', ord='20', budget=90)
+        fthen('man', 'imm', 1, 1, 'g', 1, mode='tsan', chain=1, budget=200)
+        fthen('pool', 'ts', 1, 0, 'g', 1, pol=1, n=1, mode='tsan', opts=FSC, budget=200)
+        fwhen('mm', 'g', 1, op='all', form='tup', mode='tsan', ord='01', early=1, budget=200)
+        fwhen('mm', 'w', 0, op='any', form='it', mode='asan', set='cts', n=0, ord='10', budget=120)
+        fwhen('mrm', 'g', 0, op='all', form='tup', mode='asan', ord='20', budget=120)
+    if not q:
+        fthen('man', 'imm', 1, 1, 'b', 3, budget=400)  # ~130 k executions: last, so that a tier deadline cuts only this one
     return R.runs
 
 
@@ -273,13 +278,19 @@ def c20_runs(tier):
         fut('pool', pol, 'during', 1, n=1, d=1000000, api='for', ctor='fn')
     for pol in (1, 2):
         fut('nt', pol, 'during', 1, d=1000000, api='for', ctor='fn')
-    # sanitizer legs
-    cev('during', 2, mode='tsan', d1=300, opts={'timeout_race': 1, 'spurious': 1}, budget=120)
-    cev('during', 2, mode='asan', opts={'timeout_race': 1, 'spurious': 1}, budget=90)
-    fut('man', 0, 'during', 1, mode='tsan', w2=1, budget=120)
-    fut('man', 2, 'never', 1, mode='asan', budget=90)
+    # a bystander thread (by=2 scheduling points): gives the explorer steps at which a spurious return / early timer can
+    # be placed while the event is never notified / the functor is blocked or unstarted for the whole wait
+    cev('never', eb, by=2, budget=120)
+    fut('man', alts(0, 2), alts('blocked', 'never'), 2, by=2, budget=200)
+    # sanitizer legs (explicit api / duration: the folded choices would multiply the slow executions by 12-24)
+    cev('during', 1 if q else 2, mode='tsan', api='for', d=1000000, d1=300, opts={'timeout_race': 1, 'spurious': 1}, budget=200)
+    cev('during', 2, mode='asan', api='until', d=300, opts={'timeout_race': 1, 'spurious': 1}, budget=90)
+    fut('man', 0, 'during', 1, mode='tsan', api='for', d=1000000, w2=1, opts=TIMED_FSC, budget=120)
+    fut('man', 2, 'never', 0, mode='asan', api='for', d=0, budget=120)
     if not q:
-        fut('pool', 1, 'during', 1, mode='tsan', n=1, d=300, api='for', opts=TIMED_FSC, budget=120)
+        fut('man', 0, 'blocked', 1, mode='tsan', api='until', d=300, by=2, budget=200)
+        fut('pool', 1, 'during', 1, mode='tsan', n=1, d=300, api='for', opts=TIMED_FSC, budget=200)
+        fut('nt', 0, 'during', 0, mode='asan', api='for', d=300, budget=120)
     return R.runs
 
 
